@@ -2604,6 +2604,19 @@ fn build_group_array(
             }
             Ok(Arc::new(builder.finish()))
         }
+        // Boolean keys are extracted as GroupValue::Bool (and the fused and
+        // morsel paths group by them); only this output arm was missing, so
+        // `GROUP BY flag` failed whenever the plan reached this operator.
+        DataType::Boolean => {
+            let mut builder = arrow::array::BooleanBuilder::with_capacity(num_groups);
+            for key in groups.keys() {
+                match &key.values[col_idx] {
+                    GroupValue::Bool(v) => builder.append_value(*v),
+                    _ => builder.append_null(),
+                }
+            }
+            Ok(Arc::new(builder.finish()))
+        }
         _ => Err(QueryError::NotImplemented(format!(
             "Group by type not supported: {:?}",
             data_type
